@@ -1,6 +1,6 @@
 (* C08 -- variable mocks take effect for every type and restore the pre-mock value. *)
 From Coq Require Import List ZArith Bool Arith Lia.
-From Goom Require Import Model.VarMock Proofs.VarMockProofs Tie.SkeletonTie.
+From Goom Require Import Model.VarMock Proofs.VarMockProofs Tie.SkeletonTie Model.VarLayout Proofs.VarLayoutProofs.
 From Goom Require Gen.MockerSkeleton.
 Import ListNotations.
 Open Scope Z_scope.
@@ -59,3 +59,25 @@ Theorem C08_save_restore_structure_is_source :
   List.length Gen.MockerSkeleton.defaultVarMocker_Cancel_skeleton = 4%nat.
 Proof. rewrite var_doset_skeleton_tie, var_cancel_skeleton_tie. split; reflexivity. Qed.
 Print Assumptions C08_save_restore_structure_is_source.
+
+(* ---- layout half (Model/VarLayout.v): what each addressing mode writes into the variable's words ---- *)
+(* addressed by pointer the static type is known: every reader observes the value, whatever the variable's type *)
+Theorem C08_by_pointer_every_type : forall st mem v,
+  wf_value v -> (st = SIface \/ st = v_class v) -> read st (set_by_pointer st mem v) = stored st v.
+Proof. exact by_pointer_exact. Qed.
+Print Assumptions C08_by_pointer_every_type.
+(* addressed by name it is exact when the variable's static type is the value's dynamic type ... *)
+Theorem C08_by_name_same_type : forall mem v, wf_value v -> read (v_class v) (set_by_name mem v) = stored (v_class v) v.
+Proof. exact by_name_exact_same_type. Qed.
+Print Assumptions C08_by_name_same_type.
+(* ... and REFUTED for a variable of interface type: the full property ("for any variable type", by 'package.name' too)
+   does not hold of the code. The witness replays on the implementation (stream ue-iface: readers of varzoo.uErr /
+   varzoo.uAny fault or see garbage after UnExportedVar(..).Set(..)): known finding F08c *)
+Theorem C08_by_name_interface_refuted :
+  exists (mem : list Z) (v : value), wf_value v /\ List.length mem = words SIface /\
+    read SIface (set_by_name mem v) <> stored SIface v.
+Proof. exact by_name_interface_refuted. Qed.
+Print Assumptions C08_by_name_interface_refuted.
+Theorem C08_by_name_is_source :
+  List.length Gen.MockerSkeleton.unExportedVarMocker_set_skeleton = 3%nat.
+Proof. rewrite uevar_set_skeleton_tie. reflexivity. Qed.
